@@ -28,9 +28,10 @@ theorem kzg10_open_total (pw : KZG.Powers F) (p : List F) (hb : Option Nat) (rng
 /-- **KZG10 batch.** A batch in which every individual claim verifies is accepted by
 `batch_check` for every list of verifier randomizers. -/
 theorem kzg10_batch_complete (vk : KZG.VK F) (cs zs vs : List F) (πs : List (KZG.Proof F))
-    (rs : List F) (h : ∀ d ∈ KZG.defects vk cs zs vs πs, d = 0) :
-    KZG.batchCheck vk cs zs vs πs rs = true :=
-  KZG.batch_accepts_of_all vk cs zs vs πs rs h
+    (rs : List F) (hl : cs.length = zs.length ∧ cs.length = vs.length ∧ cs.length = πs.length)
+    (h : ∀ d ∈ KZG.defects vk cs zs vs πs, d = 0) :
+    KZG.batchCheck vk cs zs vs πs rs = .ok true :=
+  KZG.batch_accepts_of_all vk cs zs vs πs rs hl h
 
 /-- non-vacuity: a hiding commitment and its opening exist in the model (over `ZMod 101`) -/
 example : KZG.commit (KZG.wfPowers (3 : K) 5 2 3 4) [1, 2, 3] (some 1) true [7, 0, 9, 4]
